@@ -34,12 +34,13 @@ theorem lock_step (ord : List Group → List Group) (vals : List Validator) (s :
     pegStep "lock" (deliver ord vals s (.lock m)).2.isOk m s.cethReceiver
       s.bank.bal (deliver ord vals s (.lock m)).1.bank.bal s.bank.supply (deliver ord vals s (.lock m)).1.bank.supply
       keys denoms (deliver ord vals s (.lock m)).2.events = true := by
-  rcases deliver_lock_cases ord vals s m with ⟨f, hd⟩ | ⟨s', e, hl, _, hd⟩
+  rcases deliver_lock_cases ord vals s m with ⟨f, hd⟩ | ⟨s', e, hl, hval, hd⟩
   · rw [hd]; simp [pegStep, Out.isOk, Out.events, sameOn]
   · rw [hd]
     obtain ⟨_, _, _, _, _, _, he, hmove⟩ := lock_ok_frame hl
     obtain ⟨hb, hs⟩ := pegMove_ok hmove
-    simp only [pegStep, Out.isOk, Out.events, if_true, pegEffectsOn, Bool.and_eq_true, List.all_eq_true, beq_iff_eq]
+    have hpay := payable_of_move hmove (lockValidate_spec hval).1 (lockValidate_spec hval).2
+    simp only [pegStep, Out.isOk, Out.events, if_true, hpay, Bool.true_and, pegEffectsOn, Bool.and_eq_true, List.all_eq_true, beq_iff_eq]
     refine ⟨⟨fun k _ => hb k.1 k.2, fun d _ => ?_⟩, by rw [he]⟩
     have := hs d
     simp only [atD] at this
@@ -52,12 +53,13 @@ theorem burn_step (ord : List Group → List Group) (vals : List Validator) (s :
     pegStep "burn" (deliver ord vals s (.burn m)).2.isOk m s.cethReceiver
       s.bank.bal (deliver ord vals s (.burn m)).1.bank.bal s.bank.supply (deliver ord vals s (.burn m)).1.bank.supply
       keys denoms (deliver ord vals s (.burn m)).2.events = true := by
-  rcases deliver_burn_cases ord vals s m with ⟨f, hd⟩ | ⟨s', e, hl, _, hd⟩
+  rcases deliver_burn_cases ord vals s m with ⟨f, hd⟩ | ⟨s', e, hl, hval, hd⟩
   · rw [hd]; simp [pegStep, Out.isOk, Out.events, sameOn]
   · rw [hd]
     obtain ⟨_, _, _, _, _, _, he, hmove⟩ := burn_ok_frame hl
     obtain ⟨hb, hs⟩ := pegMove_ok hmove
-    simp only [pegStep, Out.isOk, Out.events, if_true, pegEffectsOn, Bool.and_eq_true, List.all_eq_true, beq_iff_eq]
+    have hpay := payable_of_move hmove (burnValidate_spec hval).1 (burnValidate_spec hval).2
+    simp only [pegStep, Out.isOk, Out.events, if_true, hpay, Bool.true_and, pegEffectsOn, Bool.and_eq_true, List.all_eq_true, beq_iff_eq]
     refine ⟨⟨fun k _ => hb k.1 k.2, fun d _ => ?_⟩, by rw [he]⟩
     have := hs d
     simp only [atD] at this
